@@ -762,6 +762,7 @@ func main() {
 
 	emit := func(w *world, tags map[string]bool) {
 		clean := true
+		profLabels := map[string]map[string]string{}
 		var clusterC, profilesC []string
 		for _, ns := range w.nss {
 			clusterC = append(clusterC, fmt.Sprintf("(%s, %s)", cb(ns.Name), clabels(ns.Labels, sortedKeys(ns.Labels))))
@@ -776,6 +777,7 @@ func main() {
 			for _, o := range out {
 				if k, ok := o.Key.(model.ProfileLabelsKey); ok {
 					m, _ := o.Value.(map[string]string)
+					profLabels[k.Name] = m
 					profilesC = append(profilesC, fmt.Sprintf("(%s, %s)", cb(k.Name), clabels(m, sortedKeys(m))))
 				}
 				if _, ok := o.Key.(model.ProfileRulesKey); ok {
@@ -814,12 +816,14 @@ func main() {
 			for _, o := range out {
 				if k, ok := o.Key.(model.ProfileLabelsKey); ok {
 					m, _ := o.Value.(map[string]string)
+					profLabels[k.Name] = m
 					profilesC = append(profilesC, fmt.Sprintf("(%s, %s)", cb(k.Name), clabels(m, sortedKeys(m))))
 				}
 			}
 		}
 
 		var podsC []string
+		var effLabels []map[string]string // per pod: own labels over the profiles' labels (first profile wins)
 		for _, pi := range w.pods {
 			kvps, err := conv.PodToWorkloadEndpoints(pi.pod)
 			if err != nil {
@@ -831,6 +835,16 @@ func main() {
 			}
 			wep := out[0].Value.(*model.WorkloadEndpoint)
 			lm := wep.Labels.RecomputeOriginalMap()
+			eff := map[string]string{}
+			for pi := len(wep.ProfileIDs) - 1; pi >= 0; pi-- {
+				for k, v := range profLabels[wep.ProfileIDs[pi]] {
+					eff[k] = v
+				}
+			}
+			for k, v := range lm {
+				eff[k] = v
+			}
+			effLabels = append(effLabels, eff)
 			var ports, implPorts []string
 			for _, c := range pi.pod.Spec.Containers {
 				for _, cp := range c.Ports {
@@ -858,7 +872,7 @@ func main() {
 				ver, addr, clabels(lm, sortedKeys(lm)), cbytesList(wep.ProfileIDs), clist(implPorts)))
 		}
 
-		var npsC, implC []string
+		var npsC, implC, selStrings []string
 		nrules := 0
 		for _, np := range w.nps {
 			nrules += len(np.Spec.Ingress) + len(np.Spec.Egress)
@@ -878,6 +892,12 @@ func main() {
 				clean = false
 			}
 			pol := out[0].Value.(*model.Policy)
+			selStrings = append(selStrings, pol.Selector)
+			for _, rs := range [][]model.Rule{pol.InboundRules, pol.OutboundRules} {
+				for _, ru := range rs {
+					selStrings = append(selStrings, ru.SrcSelector, ru.DstSelector)
+				}
+			}
 			s, c := cpolicy(pol)
 			clean = clean && c
 			implC = append(implC, s)
@@ -895,8 +915,27 @@ func main() {
 			connsC = append(connsC, fmt.Sprintf("(%s, %s, %d%%N, %d%%N)", end(c.src, c.srcIP), end(c.dst, c.dstIP), c.proto, c.port))
 		}
 
-		coq := fmt.Sprintf("(Build_case %s (Build_cluster %s %s) %s %s %s %v %v %s)",
-			clist(npsC), clist(clusterC), clist(sasC), clist(profilesC), clist(podsC), clist(implC), clean, infer, clist(connsC))
+		// the real selector evaluator on the real labels, for every distinct selector of the converted policies
+		var evalsC []string
+		seenSel := map[string]bool{}
+		for _, ss := range selStrings {
+			if ss == "" || seenSel[ss] {
+				continue
+			}
+			seenSel[ss] = true
+			sel, err := parser.Parse(ss)
+			if err != nil {
+				continue
+			}
+			var bs []string
+			for _, eff := range effLabels {
+				bs = append(bs, fmt.Sprint(sel.Evaluate(eff)))
+			}
+			evalsC = append(evalsC, fmt.Sprintf("(%s, %s)", cnode(sel.Root()), clist(bs)))
+		}
+
+		coq := fmt.Sprintf("(Build_case %s (Build_cluster %s %s) %s %s %s %v %v %s %s)",
+			clist(npsC), clist(clusterC), clist(sasC), clist(profilesC), clist(podsC), clist(implC), clean, infer, clist(connsC), clist(evalsC))
 		var tl []string
 		for t := range tags {
 			tl = append(tl, t)
